@@ -571,6 +571,24 @@ pub fn run(run: &Run) {
             }
         }
     }
+    // long activities: hundreds of items (counters, sequence numbers, per-item state), default and 7-byte delivery
+    {
+        let long: Vec<Item> = (0..300u32).map(|i| match i % 3 {
+            0 => Item::Audio { ts: i * 20, len: 3 },
+            1 => Item::Video { ts: i * 20 + 1, len: ((i % 5) * 40) as usize },
+            _ => Item::Meta((i % 16) as u8),
+        }).collect();
+        for publish in [true, false] {
+            for cp in [(128u32, 128u32), (4096, 1), (2, 4096)] {
+                for w in [(2_500_000u32, 1_073_741_824u32), (1_000, 1_000)] {
+                    jobs.push((mk(publish, &long, cp, w), 0, Mode::Default));
+                    if cp.0 == 128 {
+                        jobs.push((mk(publish, &long, cp, w), 0, Mode::Fixed(7)));
+                    }
+                }
+            }
+        }
+    }
     // two deviations on four representative configurations
     if thorough {
         for publish in [true, false] {
